@@ -312,9 +312,16 @@ def run_to_completion(state: State, external_event: Union[dict, Event]) -> State
                     if "data" in event.arguments and isinstance(event.arguments, dict):
                         state.context.update(event.arguments["data"])
 
-                handled_event_loops = _process_internal_events_without_default_matchers(
-                    state, event
-                )
+                try:
+                    handled_event_loops = (
+                        _process_internal_events_without_default_matchers(state, event)
+                    )
+                except Exception as e:
+                    # E.g. a flow parameter default that cannot be evaluated or a malformed
+                    # StartFlow/StopFlow/FinishFlow event sent by a flow: the flow that sent
+                    # the event fails, all the other flows carry on
+                    _fail_source_flow_of_internal_event(state, event, e)
+                    continue
 
                 head_candidates = _get_all_head_candidates(state, event)
 
@@ -822,6 +829,34 @@ def _handle_event_matching(
         #     pass
 
 
+def _fail_source_flow_of_internal_event(
+    state: State, event: Event, error: Exception
+) -> None:
+    """Report a runtime error raised while an internal event was processed and fail the flow that sent the event."""
+    log.warning(
+        "Processing of internal event '%s' failed due to Colang runtime exception: %s",
+        event.name,
+        error,
+        exc_info=True,
+    )
+    colang_error_event = Event(
+        name="ColangError",
+        arguments={
+            "type": str(type(error).__name__),
+            "error": str(error),
+        },
+    )
+    _push_internal_event(state, colang_error_event)
+    source_flow_uid = event.arguments.get("source_flow_instance_uid", None)
+    if isinstance(source_flow_uid, str) and source_flow_uid in state.flow_states:
+        source_flow_state = state.flow_states[source_flow_uid]
+        if (
+            state.main_flow_state is None
+            or source_flow_state.uid != state.main_flow_state.uid
+        ):
+            _abort_flow(state, source_flow_state, event.matching_scores)
+
+
 def _fail_flow_with_runtime_error(
     state: State, head: FlowHead, error: Exception
 ) -> None:
@@ -841,6 +876,10 @@ def _fail_flow_with_runtime_error(
         },
     )
     _push_internal_event(state, colang_error_event)
+    if flow_state.status == FlowStatus.STARTING and flow_state.activated > 0:
+        # Avoid an activated flow that failed before reaching its first waiting
+        # statement from being restarted, since this would end in an infinite loop
+        flow_state.new_instance_started = True
     _abort_flow(state, flow_state, head.matching_scores)
 
 
@@ -1769,7 +1808,24 @@ def _finish_flow_once(
     event = flow_state.finished_event(matching_scores)
     _push_internal_event(state, event)
 
-    _log_action_or_intents(state, flow_state, matching_scores)
+    try:
+        _log_action_or_intents(state, flow_state, matching_scores)
+    except Exception as e:
+        # E.g. a meta tag (`@meta(bot_intent="{...}")`) whose expression cannot be evaluated:
+        # the error is reported, the flow has finished nevertheless
+        log.warning(
+            "Logging the action/intent of flow '%s' failed due to Colang runtime exception: %s",
+            flow_state.flow_id,
+            e,
+            exc_info=True,
+        )
+        _push_internal_event(
+            state,
+            Event(
+                name="ColangError",
+                arguments={"type": str(type(e).__name__), "error": str(e)},
+            ),
+        )
 
     log.info(
         "Flow finished: '%s' context=%s",
